@@ -50,6 +50,9 @@ def make_case(rc):
     elif kind == 'criterion':
         cells = {'A1': 'x', 'A2': 'y', 'B1': '=COUNTIFS(A1:A2,"%s")' % text}
         uid = '_0_1_0'
+    elif kind == 'title_ref':
+        cells = {'A1': "='%s'!A1&\"%s\"" % (rc['title'], text), 'B1': 'mid'}
+        uid = '_0_0_0'
     elif kind in ('concat', 'concat_fn', 'concat_cell', 'concat_fn_cell'):
         t2 = rc['text2']
         f = {'concat': '="%s"&"%s"', 'concat_fn': '=CONCATENATE("%s","%s")', 'concat_cell': '="%s"&B1&"%s"',
@@ -65,7 +68,7 @@ def make_case(rc):
     del MARK[:]
     try:
         try:
-            src, ctx = I.translate([(title, cells)])
+            src, ctx = I.translate([(title, cells)] if kind != 'title_ref' else [('Calc', cells), (title, {'A1': 'v'})])
             impl = ctx._cell_translations.get(uid)
         except I.X.E2PyclParserException:
             src = None
@@ -104,7 +107,9 @@ def make_case(rc):
                             fail = 'the joined literals %r and %r evaluate to %r' % (text, rc['text2'], got)
                         elif kind in ('concat_cell', 'concat_fn_cell') and got != ('ok', text + 'mid' + rc['text2']):
                             fail = 'the joined literals %r, cell, %r (%s) evaluate to %r' % (text, rc['text2'], kind, got)
-                        elif list(cls().get_titles()) != [title]:
+                        elif kind == 'title_ref' and got != ('ok', 'v' + text):
+                            fail = 'the text literal %r joined to a cell of the sheet titled %r evaluates to %r' % (text, title, got)
+                        elif kind != 'title_ref' and list(cls().get_titles()) != [title]:
                             fail = 'sheet title %r reported as %r' % (title, list(cls().get_titles()))
                     except Exception as ex:  # noqa
                         if MARK:
@@ -113,7 +118,7 @@ def make_case(rc):
         if hasattr(builtins, 'zzcanary'):
             del builtins.zzcanary
     k = 'KConstant' if kind == 'constant' else 'KFormulaText'
-    if kind == 'criterion' or kind.startswith('concat'):
+    if kind == 'criterion' or kind.startswith('concat') or kind == 'title_ref':
         return {'recipe': rc, 'coq': None, 'vcoq': None, 'key': rc, 'nontrivial': True, 'oracle_fail': fail}
     coq = 'CT %s %s %s %s' % (k, C.cstr(text), 'None' if impl is None else '(Some %s)' % C.cstr(impl), C.cbool(fail is None))
     nt = any(ch in text for ch in '\'"\\\n?*')
@@ -130,6 +135,7 @@ def corpus():
           {'kind': 'concat', 'text': 'a', 'text2': "it's"}, {'kind': 'concat', 'text': "it's", 'text2': ' ok'}, {'kind': 'concat', 'text': 'a', 'text2': "'+str(zzcanary(1))+'x'#"},
           {'kind': 'concat_fn', 'text': "x'", 'text2': "'+zzcanary(1)+'"}, {'kind': 'concat_fn_cell', 'text': "{", 'text2': "}"},
           {'kind': 'concat_fn_cell', 'text': "{0.__class__}", 'text2': "%s"}, {'kind': 'concat_cell', 'text': "it's", 'text2': "\\"}, {'kind': 'concat', 'text': '', 'text2': "'"},
+          {'kind': 'title_ref', 'title': '6" pipes', 'text': 'x  y'}, {'kind': 'title_ref', 'title': 'a"b"c"', 'text': ' padded '},
           {'kind': 'criterion', 'text': ">7 or (zzcanary)(1)"}, {'kind': 'criterion', 'text': ">7"}, {'kind': 'criterion', 'text': "x')+zzcanary(1)+('"}]
     rs += [x['witness'] for x in C.known_findings()['findings'] if x['property'] == 'C07']
     return rs
@@ -155,6 +161,11 @@ def run(R, tier):
             rc['text'], rc['text2'] = clean(rc['text']), clean(gen_text(R.rng))
         if R.rng.random() < 0.15:
             rc['title'] = gen_text(R.rng) or 'T'
+        if R.rng.random() < 0.08:
+            # a title the formula can spell (no apostrophe, ! or line break), possibly with double quotes, and a literal with blanks in it
+            t = ''.join(ch for ch in (gen_text(R.rng) or 'T') if ch not in "'!\n\\") or 'T'
+            lit = ''.join(ch for ch in gen_text(R.rng) if ch not in '"?*\n') + R.rng.choice(['', '  x', ' y ', '\tz'])
+            rc = {'kind': 'title_ref', 'title': t, 'text': lit}
         if kind != 'constant' and ('\n' in rc['text']) and False:
             continue
         recipes.append(rc)
